@@ -58,3 +58,27 @@ def move_target_unique():
     t = z3.Int('t')
     obls.append(('at/shift positions are equal', [r1 - start == t, r2 - start == t], r1 == r2))
     return obls
+
+
+@lemma('C17.visible_depends_only_on_flag_and_hidden')
+def visible_frame():
+    """Once explicitly assigned (flag false) the attribute keeps reading as the assigned value under
+    any later writes to OTHER slots (in particular to the tracked field): visible is a function of
+    the flag slot and the hidden slot only."""
+    S1 = z3.Const('S1', T.ASV)
+    S2 = z3.Const('S2', T.ASV)
+    H1 = z3.Const('H1', T.ASB)
+    H2 = z3.Const('H2', T.ASB)
+    en, real = z3.Strings('en real')
+    comp1, comp2 = z3.Consts('comp1 comp2', T.Val)
+
+    def truthy(v):
+        return z3.If(T.Val.is_VB(v), T.Val.bval(v), z3.If(T.Val.is_VI(v), T.Val.ival(v) != 0, z3.Not(T.Val.is_VN(v))))
+
+    def visible(S, H, comp):
+        enabled = z3.Or(z3.Not(H[en]), truthy(S[en]))
+        return z3.If(enabled, comp, S[real]), enabled
+    v1, e1 = visible(S1, H1, comp1)
+    v2, e2 = visible(S2, H2, comp2)
+    same_cells = [S1[en] == S2[en], H1[en] == H2[en], S1[real] == S2[real], H1[real] == H2[real], en != real]
+    return [('explicit value survives writes to other slots', same_cells + [z3.Not(e1)], z3.And(z3.Not(e2), v2 == v1))]
